@@ -1,4 +1,5 @@
 import NessaiVerif.Proofs.ResampleLog
+import NessaiVerif.Gen.ResampleTx
 /-
 C16 — posterior resampling follows the posterior weights.
 Property theorems only (helper lemmas live in Proofs/Resample*.lean).
@@ -511,5 +512,64 @@ example : (drawPosterior "nested_sampling" none [1] [1] [0]).toOption = none := 
 
 example : drawPosterior "nested_sampling" (some 3) [1, 2] [1, 1] [0, 0] = .error .valueErr :=
   draw_unknown_method _ _ _ _
+
+/-! ## The source, regenerated on every run, IS the model
+
+`Gen/ResampleTx.lean` is produced by `harness/pylogvec2lean.py` from the current text of `effective_sample_size`,
+`_BaseNSIntegralState.effective_n_posterior_samples` and `draw_posterior_samples` (log-weight vectors ↦ weights, statement
+by statement; the uniform draws are an input).  The theorems below identify the generated definitions with the model's
+`ess`, `effectiveN`, `rejectionIndices`, `multinomialIndices` and, on the model's domain, `drawPosterior` — so every theorem
+of this file is a theorem about the source as it is now. -/
+
+theorem ess_source_eq_model (w : List K) : Gen.ResampleTx.effective_sample_size w = ess w := rfl
+
+theorem effective_n_source_eq_model (w : List K) : Gen.ResampleTx.effective_n_posterior_samples w = effectiveN w := rfl
+
+theorem whereGtGo_eq_rejGo (m : K) (k : Nat) (w u : List K) :
+    whereGtGo k (w.map (fun x => x / m)) u = rejGo m k w u := by
+  induction w generalizing u k with
+  | nil => cases u <;> simp [whereGtGo, rejGo]
+  | cons a as ih =>
+    cases u with
+    | nil => simp [whereGtGo, rejGo]
+    | cons b bs =>
+      simp only [List.map_cons, whereGtGo, rejGo, keep, decide_eq_true_eq]
+      split <;> simp [ih]
+
+/-- the rejection arm of the source: the indices are the model's `rejectionIndices`, the samples the nested samples there -/
+theorem draw_posterior_source_rejection (intOf : K → Nat) (nested : List α) (n : Option Nat) (w u : List K) (r : Bool) :
+    Gen.ResampleTx.draw_posterior_samples intOf nested n w "rejection_sampling" r u =
+      .ok (takeIdx nested (rejectionIndices w u), rejectionIndices w u) := by
+  simp [Gen.ResampleTx.draw_posterior_samples, whereGt, rejectionIndices, whereGtGo_eq_rejGo]
+
+/-- the multinomial arm of the source (both spellings): `n` draws, `intOf (ess w)` of them when `n` is not given -/
+theorem draw_posterior_source_multinomial (intOf : K → Nat) (method : String)
+    (hm : method = "multinomial_resampling" ∨ method = "importance_sampling")
+    (nested : List α) (n : Option Nat) (w u : List K) (r : Bool) :
+    Gen.ResampleTx.draw_posterior_samples intOf nested n w method r u =
+      .ok (takeIdx nested (multinomialIndices w (n.getD (intOf (ess w))) u),
+           multinomialIndices w (n.getD (intOf (ess w))) u) := by
+  rcases hm with rfl | rfl <;>
+    simp [Gen.ResampleTx.draw_posterior_samples, choiceIdx, multinomialIndices, cdf, probs, ess_source_eq_model]
+
+/-- any other method string is rejected by the source as by the model -/
+theorem draw_posterior_source_unknown (intOf : K → Nat) (method : String)
+    (h1 : method ≠ "rejection_sampling") (h2 : method ≠ "importance_sampling") (h3 : method ≠ "multinomial_resampling")
+    (nested : List α) (n : Option Nat) (w u : List K) (r : Bool) :
+    Gen.ResampleTx.draw_posterior_samples intOf nested n w method r u = .error .valueErr := by
+  simp [Gen.ResampleTx.draw_posterior_samples, h1, h2, h3]
+
+/-- on the model's domain (matching non-empty inputs, enough uniforms, positive total weight for multinomial resampling)
+the generated `draw_posterior_samples` at `K = ℚ`, `int = ⌊·⌋`, IS `drawPosterior` (pair order swapped: the code returns
+`(samples, indices)`) — rejection sampling -/
+theorem draw_posterior_source_eq_model_rejection (nested : List α) (w u : List ℚ) (n : Option Nat) (r : Bool)
+    (hN : nested ≠ []) (hw : w.length = nested.length) (hu : nested.length ≤ u.length) :
+    (Gen.ResampleTx.draw_posterior_samples (fun q : ℚ => q.floor.toNat) nested n w "rejection_sampling" r u).map Prod.swap =
+      drawPosterior "rejection_sampling" n nested w u := by
+  rw [draw_posterior_source_rejection, draw_rejection nested w u n hN hw hu]
+  rfl
+
+example : (Gen.ResampleTx.draw_posterior_samples (fun q : ℚ => q.floor.toNat) [10, 11, 12] none [1, 1 / 2, 0]
+    "rejection_sampling" true [1 / 2, 1 / 2, 0]).toOption = some ([10], [0]) := by decide +kernel
 
 end NessaiVerif.C16
